@@ -112,7 +112,7 @@ fn gen_bool(r: &mut R, d: u32) -> J {
         11 => { let t = pick(r, &["2021-03-04 05:06:07", "2021-03-04 05:06:08", "2021-3-4", "never"]);
                 json!({"op": "cmp", "f": cmp, "a": gen_ts(r, d - 1), "b": lit(json!({"t": "text", "s": t.chars().map(|c| c as u32).collect::<Vec<_>>()}))}) }
         12 => json!({"op": "cmp", "f": cmp, "a": gen_iv(r, d - 1), "b": gen_iv(r, d - 1)}),
-        13 => { let p = pick(r, &["a", "^a", "b$", "^ab$", "(", "x y", "", "[a"]);
+        13 => { let p = pick(r, RX_PATTERNS);
                 json!({"op": "call", "f": "regex_matches", "args": [gen_text(r, d - 1), lit(json!({"t": "text", "s": p.chars().map(|c| c as u32).collect::<Vec<_>>()}))]}) }
         0..=2 => json!({"op": "cmp", "f": cmp, "a": gen_int(r, d - 1), "b": gen_int(r, d - 1)}),
         3 => json!({"op": "cmp", "f": cmp, "a": gen_text(r, d - 1), "b": gen_text(r, d - 1)}),
@@ -122,6 +122,25 @@ fn gen_bool(r: &mut R, d: u32) -> J {
         7 => json!({"op": "not", "a": gen_bool(r, d - 1)}),
         8 => json!({"op": "in", "neg": r.gen_bool(0.5), "a": gen_int(r, d - 1), "vs": (0..r.gen_range(1..4)).map(|_| gen_int(r, 0)).collect::<Vec<_>>()}),
         _ => json!({"op": "cast", "a": gen_text(r, d - 1), "ty": "boolean"})
+    }
+}
+
+/// patterns of regex_matches: what they match on a given text is asked of the regex crate (the `rx` table of an event), not modelled
+const RX_PATTERNS: &[&str] = &["a", "^a", "b$", "^ab$", "(", "x y", "", "[a", "a{2}", "={2}", "={10}", "o{2}", "a{", "a|b", "[ab]+", "^.$", "\\d+", "(?i)AB", ".", "a*", "a.b", "\\bA",
+                               "[[:alpha:]]+", "1{1,2}$", "^$", "c{1}", "b{2,}", "k=a", "v=\\d", "^k=(a|bc) v=-?\\d+$", "a+?", "\\", "*", "T", "true|false", "0{2}:0{2}"];
+
+/// every regex_matches(text, 'literal pattern') node of the tree: (text argument, pattern)
+fn rx_nodes(e: &J, out: &mut Vec<(J, String)>) {
+    match e {
+        J::Object(m) => {
+            if m.get("op").map(|o| o == "call").unwrap_or(false) && m.get("f").map(|f| f == "regex_matches").unwrap_or(false) {
+                let args = m["args"].as_array().unwrap();
+                if args.len() == 2 && args[1]["op"] == "lit" && args[1]["v"]["t"] == "text" { out.push((args[0].clone(), text_of(&args[1]["v"]))); }
+            }
+            for v in m.values() { rx_nodes(v, out); }
+        }
+        J::Array(xs) => for v in xs { rx_nodes(v, out); },
+        _ => {}
     }
 }
 
@@ -140,8 +159,26 @@ pub fn trace(seed: u64, n: usize) -> Vec<J> {
         // every third statement is written with the fewest parentheses the standard precedence allows (what a user types)
         let query = format!("SELECT {} AS r FROM t", if i % 3 == 2 { sql::expr_min(&e) } else { sql::expr(&e) });
         tick(&json!({"i": i, "query": query}));
-        let env = json!({"k": k, "v": v, "t.k": k, "t.v": v, "input": {"t": "text", "s": text.chars().map(|c| c as u32).collect::<Vec<_>>()}});
         if k["t"] == "null" && v["t"] == "null" { continue; }        // not a row
+        // the regex crate's verdict for every (text, pattern) pair a regex_matches node of this tree meets on this row: the text argument is
+        // evaluated on its own (it is judged by the model where it stands in the tree), the match itself is the trusted base's
+        let mut nodes = Vec::new();
+        rx_nodes(&e, &mut nodes);
+        let mut rx: Vec<J> = Vec::new();
+        for (arg, pat) in nodes {
+            let q = format!("SELECT {} AS r FROM t", sql::expr(&arg));
+            let tx = text.clone();
+            let val = std::panic::catch_unwind(std::panic::AssertUnwindSafe(|| {
+                let stmt = sqlgrep::parsing::parse(&q).ok()?;
+                let mut engine = ExecutionEngine::new(&tables, &stmt);
+                match engine.execute(tx, &ExecutionConfig::default()) { Ok(o) => o.result_row.map(|rr| rr.data[0].columns[0].clone()), Err(_) => None }
+            })).unwrap_or(None);
+            if let Some(sqlgrep::model::Value::String(t)) = val {
+                let m = match regex::Regex::new(&pat) { Ok(re) => if re.is_match(&t) { "t" } else { "f" }, Err(_) => "bad" };
+                rx.push(json!({"s": t.chars().map(|c| c as u32).collect::<Vec<_>>(), "p": pat.chars().map(|c| c as u32).collect::<Vec<_>>(), "m": m}));
+            }
+        }
+        let env = json!({"k": k, "v": v, "t.k": k, "t.v": v, "input": {"t": "text", "s": text.chars().map(|c| c as u32).collect::<Vec<_>>()}, "rx": rx});
         let q2 = query.clone();
         let out = std::panic::catch_unwind(std::panic::AssertUnwindSafe(|| {
             let stmt = match sqlgrep::parsing::parse(&q2) { Ok(s) => s, Err(e) => return json!({"k": "parse_err", "msg": format!("{}", e)}) };
